@@ -192,19 +192,21 @@ handler!(get_status(state: Extension<Arc<GlobalState>>) -> impl IntoResponse {
 });
 
 handler!(get_alive(state: Extension<Arc<GlobalState>>) -> impl IntoResponse {
+    // take the registry lock only to copy the references: waiting for a connection's own lock while holding the
+    // registry would stop every listener from registering new connections
+    let alive: Vec<_> = state
+        .contexts
+        .alive
+        .lock()
+        .await
+        .values()
+        .filter_map(Weak::upgrade)
+        .collect();
     Json(
-        futures::stream::iter(
-            state
-                .contexts
-                .alive
-                .lock()
-                .await
-                .values()
-                .filter_map(Weak::upgrade),
-        )
-        .then(|x| async move { x.read().await.props().clone() })
-        .collect::<Vec<_>>()
-        .await,
+        futures::stream::iter(alive)
+            .then(|x| async move { x.read().await.props().clone() })
+            .collect::<Vec<_>>()
+            .await,
     )
 });
 
